@@ -343,6 +343,30 @@ impl Check for GroupCheck {
                     };
                     let want = cc.equal(&leaf, &qt);
                     out.bump("redundancy_path_queries");
+                    // the same question with a handle obtained now (it lacks the redundant slot)
+                    let hn = match catch_op(|| s2.re_add(&leaf)) {
+                        Ok(h) => h,
+                        Err(_) => {
+                            out.discarded = Some("panic_in_query".into());
+                            return out;
+                        }
+                    };
+                    let hnq = hn.apply_slotmap_partial(&s2.nm.slotmap(&rho));
+                    let got2 = match catch_op(|| s2.eg.eq(&h0, &hnq)) {
+                        Ok(b) => b,
+                        Err(_) => {
+                            out.discarded = Some("panic_in_query".into());
+                            return out;
+                        }
+                    };
+                    if got2 != want {
+                        out.violations.push(viol(
+                            if got2 { "eq_outside_group" } else { "eq_misses_group_element" },
+                            format!("leaf p{k} with generators {:?} and p{k}(0..) = p{}(0..) asserted at step {at}: after {step} unions eq(old handle, {q:?}.new handle) = {got2}, M_cc says {want}", &gens[..gi.min(gens.len())], k - 1),
+                            gi,
+                        ));
+                        return out;
+                    }
                     if got != want {
                         out.violations.push(viol(
                             if got { "eq_outside_group" } else { "eq_misses_group_element" },
